@@ -274,16 +274,11 @@ theorem rbc_field_set (D fld full : String) (hs : splitDot full = [D, fld]) (v :
   simp only [setKey_true_inds, setKey_true_subs, dlookup_dset_self]
   cases dlookup D c.inds <;> rfl
 
-/-- the dotted name `<key>.<field>` (given as one literal suffix) addresses the field of the entry
-under the key -/
-theorem splitDot_field (key sfx fld : String) (h : NoDot key) (hf : '.' ∉ fld.toList)
-    (name full : String) (hk : key = name ++ sfx) (hfull : full = name ++ (sfx ++ "." ++ fld)) :
-    splitDot full = [key, fld] := by
+/-- a dotted name addresses the field of the entry under the key before the dot -/
+theorem splitDot_field (key fld full : String) (h : NoDot key) (hf : '.' ∉ fld.toList)
+    (e : full.toList = key.toList ++ '.' :: fld.toList) : splitDot full = [key, fld] := by
   have hm := noDot_not_mem key h
   unfold splitDot
-  have e : full.toList = key.toList ++ '.' :: fld.toList := by
-    rw [hfull, hk]
-    simp [String.toList_append]
   rw [e, List.splitOn_append_cons_self_of_not_mem hm, List.splitOn_eq_singleton hf]
   simp
 
@@ -341,4 +336,370 @@ theorem stepLeaf_rma (Z : Ind F) (q : Int) (inp : String) (hk : Z.kind = .rma q 
     pure (H ++ setKey Z.isSub Z.name (v.roundBy Z.round) c :: rest)) = _
   rw [← trunc_append_cons H c rest, rma_trunc _ q inp (by simp) (by simp) hq]
 
+theorem bind_ok' {α β : Type} (a : α) (f : α → PyM β) : ((Except.ok a : PyM α) >>= f) = f a := rfl
+theorem bind_err' {α β : Type} (e : PyErr) (f : α → PyM β) : ((Except.error e : PyM α) >>= f) = Except.error e := rfl
+
 end Hex.Adx
+
+namespace Hex
+open Adx
+set_option linter.unusedSectionVars false
+variable {F : Type} [PyF F]
+
+/-- name conditions of an ADX node: the node's name and the six helper names are ordinary keys (no
+dot, not a candle attribute) and pairwise distinct -/
+structure AdxNames (name : String) : Prop where
+  kN : IsKey name
+  kA : IsKey (name ++ "_atr")
+  kT : IsKey (name ++ "_atr" ++ "_TR")
+  kD : IsKey (name ++ "_data")
+  kP : IsKey (name ++ "_pos")
+  kG : IsKey (name ++ "_neg")
+  kX : IsKey (name ++ "_dx")
+  nA : name ≠ name ++ "_atr"
+  nT : name ≠ name ++ "_atr" ++ "_TR"
+  nD : name ≠ name ++ "_data"
+  nP : name ≠ name ++ "_pos"
+  nG : name ≠ name ++ "_neg"
+  nX : name ≠ name ++ "_dx"
+  AT : name ++ "_atr" ≠ name ++ "_atr" ++ "_TR"
+  AD : name ++ "_atr" ≠ name ++ "_data"
+  AP : name ++ "_atr" ≠ name ++ "_pos"
+  AG : name ++ "_atr" ≠ name ++ "_neg"
+  AX : name ++ "_atr" ≠ name ++ "_dx"
+  TD : name ++ "_atr" ++ "_TR" ≠ name ++ "_data"
+  TP : name ++ "_atr" ++ "_TR" ≠ name ++ "_pos"
+  TG : name ++ "_atr" ++ "_TR" ≠ name ++ "_neg"
+  TX : name ++ "_atr" ++ "_TR" ≠ name ++ "_dx"
+  DP : name ++ "_data" ≠ name ++ "_pos"
+  DG : name ++ "_data" ≠ name ++ "_neg"
+  DX : name ++ "_data" ≠ name ++ "_dx"
+  PG : name ++ "_pos" ≠ name ++ "_neg"
+  PX : name ++ "_pos" ≠ name ++ "_dx"
+  GX : name ++ "_neg" ≠ name ++ "_dx"
+
+theorem AdxNames.dPos {name : String} (hn : AdxNames name) :
+    splitDot (name ++ "_data.pos") = [name ++ "_data", "pos"] :=
+  splitDot_field (name ++ "_data") "pos" _ hn.kD.noDot (by decide)
+    (by simp only [String.toList_append, List.append_assoc]; rfl)
+
+theorem AdxNames.dNeg {name : String} (hn : AdxNames name) :
+    splitDot (name ++ "_data.neg") = [name ++ "_data", "neg"] :=
+  splitDot_field (name ++ "_data") "neg" _ hn.kD.noDot (by decide)
+    (by simp only [String.toList_append, List.append_assoc]; rfl)
+
+theorem AdxNames.dDx {name : String} (hn : AdxNames name) :
+    splitDot (name ++ "_data.dx") = [name ++ "_data", "dx"] :=
+  splitDot_field (name ++ "_data") "dx" _ hn.kD.noDot (by decide)
+    (by simp only [String.toList_append, List.append_assoc]; rfl)
+
+section adxNode
+variable (name : String) (round : Nat) (p signal : Int)
+
+/-! ### the node's own step as a value and a store -/
+
+/-- the reading while the guards fail -/
+def adxNone3 : Val F := sdict [("ADX", .none), ("DM_Plus", .none), ("DM_Neg", .none)]
+
+/-- the candle after `Managed.set_reading(d)` of `ADX_data`: the dict and the two smoothed values -/
+def adxSt (d a b : Val F) (c : Candle F) : Candle F :=
+  setKey true (name ++ "_neg") b (setKey true (name ++ "_pos") a (setKey true (name ++ "_data") d c))
+
+/-- the (rounded) readings of the two smoothing RMAs after the dict `d` is stored on the current candle -/
+def adxSetV (H : List (Candle F)) (d : Val F) (c : Candle F) : PyM (Val F × Val F) := do
+  let a ← Calc.rma { cs := H ++ [setKey true (name ++ "_data") d c], i := H.length, name := name ++ "_pos" }
+    p (name ++ "_data.pos")
+  let b ← Calc.rma { cs := H ++ [setKey true (name ++ "_pos") (a.roundBy defaultRound)
+      (setKey true (name ++ "_data") d c)], i := H.length, name := name ++ "_neg" } p (name ++ "_data.neg")
+  pure (a.roundBy defaultRound, b.roundBy defaultRound)
+
+/-- the (rounded) reading of the `dx` RMA on the current candle -/
+def adxDxV (H : List (Candle F)) (c : Candle F) : PyM (Val F) := do
+  let x ← Calc.rma { cs := H ++ [c], i := H.length, name := name ++ "_dx" } signal (name ++ "_data.dx")
+  pure (x.roundBy defaultRound)
+
+/-- `Managed.set_reading` of `ADX_data` on `H ++ c :: rest` at the index of `c` -/
+theorem setManaged_cur (hp : 1 ≤ p) (k : String) (d : Val F) (H : List (Candle F)) (c : Candle F)
+    (rest : List (Candle F)) :
+    (adxOps (F := F) name p signal H.length).setManaged k d (H ++ c :: rest) = (do
+      let ab ← adxSetV name p H d c
+      pure (H ++ adxSt name d ab.1 ab.2 c :: rest)) := by
+  unfold adxOps adxSetV
+  simp only [setReading_eq, updateAt_append_cons, bind, Except.bind]
+  rw [stepLeaf_rma (adxPos name p) p _ rfl hp]
+  show (do
+    let cs₂ ← (do
+      let v ← Calc.rma { cs := H ++ [setKey true (name ++ "_data") d c], i := H.length, name := name ++ "_pos" }
+        p (name ++ "_data.pos")
+      pure (H ++ setKey true (name ++ "_pos") (v.roundBy defaultRound) (setKey true (name ++ "_data") d c) :: rest))
+    stepLeaf (adxNeg name p) cs₂ H.length) = _
+  cases Calc.rma { cs := H ++ [setKey true (name ++ "_data") d c], i := H.length, name := name ++ "_pos" }
+      p (name ++ "_data.pos") with
+  | error e => rfl
+  | ok a =>
+    simp only [bind, Except.bind, pure, Except.pure]
+    rw [stepLeaf_rma (adxNeg name p) p _ rfl hp]
+    show (do
+      let v ← Calc.rma { cs := H ++ [setKey true (name ++ "_pos") (a.roundBy defaultRound)
+        (setKey true (name ++ "_data") d c)], i := H.length, name := name ++ "_neg" } p (name ++ "_data.neg")
+      pure (H ++ setKey true (name ++ "_neg") (v.roundBy defaultRound)
+        (setKey true (name ++ "_pos") (a.roundBy defaultRound) (setKey true (name ++ "_data") d c)) :: rest)) = _
+    cases Calc.rma { cs := H ++ [setKey true (name ++ "_pos") (a.roundBy defaultRound)
+        (setKey true (name ++ "_data") d c)], i := H.length, name := name ++ "_neg" } p (name ++ "_data.neg") with
+    | error e => rfl
+    | ok b => rfl
+
+/-- `calculate_index(i)` of `dx` on `H ++ c :: rest` at the index of `c` -/
+theorem calcManaged_cur (hs : 1 ≤ signal) (k : String) (H : List (Candle F)) (c : Candle F)
+    (rest : List (Candle F)) :
+    (adxOps (F := F) name p signal H.length).calcManaged k (H ++ c :: rest) = (do
+      let x ← adxDxV name signal H c
+      pure (H ++ setKey true (name ++ "_dx") x c :: rest)) := by
+  unfold adxOps adxDxV
+  simp only
+  rw [stepLeaf_rma (adxDx name signal) signal _ rfl hs]
+  show (do
+    let v ← Calc.rma { cs := H ++ [c], i := H.length, name := name ++ "_dx" } signal (name ++ "_data.dx")
+    pure (H ++ setKey true (name ++ "_dx") (v.roundBy defaultRound) c :: rest)) = _
+  cases Calc.rma { cs := H ++ [c], i := H.length, name := name ++ "_dx" } signal (name ++ "_data.dx") with
+  | error e => rfl
+  | ok x => rfl
+
+/-! #### `Calc.adx` in stages (continuation style, so that the stages compose by `rfl`) -/
+
+/-- the arithmetic middle of the reading: the directional indices and DX from the helpers' readings -/
+def adxMid {α : Type} (atr pos : Val F) (negN : PyM (Num F)) (K : Num F → Num F → Num F → PyM α) : PyM α := do
+  let a ← atr.asNum
+  let mod : Num F ← if a.eq (.int 0) then pure (fl 0) else (Num.int 100 : Num F).truediv a
+  let plus := mod.mul (← pos.asNum)
+  let minus := mod.mul (← negN)
+  let diSum := plus.add minus
+  let dx : Num F ← if diSum.eq (.int 0) then pure (fl 0) else
+    ((Num.int 100).mul (plus.sub minus).abs).truediv diSum
+  K plus minus dx
+
+/-- last stage of `Calc.adx`: store the three-entry dict, step `dx`, read it back -/
+def adxK3 (ops : Ops F) (x : Ctx F) (positive negative plus minus dx : Num F) (cs : List (Candle F)) :
+    PyM (Val F × List (Candle F)) := do
+  let cs ← ops.setManaged "ADX_data"
+    (sdict [("pos", sc positive), ("neg", sc negative), ("dx", sc dx)]) cs
+  let cs ← ops.calcManaged "dx" cs
+  let dxr ← ({ x with cs := cs } : Ctx F).reading (x.name ++ "_dx")
+  return (sdict [("ADX", ← Val.toScalar dxr), ("DM_Plus", sc plus), ("DM_Neg", sc minus)], cs)
+
+/-- second stage of `Calc.adx`: read the helpers back after the first store -/
+def adxK2 (ops : Ops F) (x : Ctx F) (positive negative : Num F) (cs : List (Candle F)) :
+    PyM (Val F × List (Candle F)) := do
+  let atr ← ({ x with cs := cs } : Ctx F).reading (x.name ++ "_atr")
+  let pos ← ({ x with cs := cs } : Ctx F).reading (x.name ++ "_pos")
+  if atr.isNone || pos.isNone then return (adxNone3, cs)
+  else
+    (adxMid atr pos (({ x with cs := cs } : Ctx F).num (x.name ++ "_neg"))
+      (fun plus minus dx => adxK3 ops x positive negative plus minus dx cs))
+
+/-- first stage of `Calc.adx`: the directional movements and the first store -/
+def adxK1 (ops : Ops F) (x : Ctx F) (up down : Num F) : PyM (Val F × List (Candle F)) := do
+  let positive : Num F := if up.gt down && up.gt (.int 0) then up else .int 0
+  let negative : Num F := if down.gt up && down.gt (.int 0) then down else .int 0
+  let cs ← ops.setManaged "ADX_data" (sdict [("pos", sc positive), ("neg", sc negative)]) x.cs
+  adxK2 ops x positive negative cs
+
+/-- `Calc.adx` is the composition of the stages -/
+theorem adx_unfold (ops : Ops F) (x : Ctx F) :
+    Calc.adx ops x = (if !(x.i > 0) then return (adxNone3, x.cs) else do
+      let hi ← x.num "high"
+      let hp ← x.num "high" (some (x.i - 1))
+      let lp ← x.num "low" (some (x.i - 1))
+      let lo ← x.num "low"
+      adxK1 ops x (hi.sub hp) (lp.sub lo)) := rfl
+
+theorem adxMid_bind {α β : Type} (atr pos : Val F) (negN : PyM (Num F)) (K : Num F → Num F → Num F → PyM α)
+    (g : α → PyM β) :
+    (adxMid atr pos negN K >>= g) = adxMid atr pos negN (fun a b c => K a b c >>= g) := by
+  have ite_bind' : ∀ {γ δ : Type} (cnd : Prop) [Decidable cnd] (u v : PyM γ) (h : γ → PyM δ),
+      ((if cnd then u else v) >>= h) = if cnd then u >>= h else v >>= h := by
+    intro γ δ cnd _ u v h
+    split <;> rfl
+  simp only [adxMid, bind_assoc, ite_bind']
+
+/-! #### the same stages on the current candle only -/
+
+/-- what the node's step stores and returns: (the final dict of `ADX_data`, the two smoothed values
+and – past the guard – the `dx` reading, if the index is positive; the own value) -/
+abbrev AdxW (F : Type) := Option (Val F × Val F × Val F × Option (Val F)) × Val F
+
+/-- last part of the step: store the three-entry dict, step `dx` and read it back -/
+def adxVal3 (H : List (Candle F)) (c : Candle F) (positive negative : Num F) (a b : Val F)
+    (plus minus dx : Num F) : PyM (AdxW F) := do
+  let x ← adxDxV name signal H
+    (adxSt name (sdict [("pos", sc positive), ("neg", sc negative), ("dx", sc dx)]) a b c)
+  let dxr := readingByCandle (setKey true (name ++ "_dx") x
+    (adxSt name (sdict [("pos", sc positive), ("neg", sc negative), ("dx", sc dx)]) a b c)) (name ++ "_dx")
+  pure (some (sdict [("pos", sc positive), ("neg", sc negative), ("dx", sc dx)], a, b, some x),
+    sdict [("ADX", ← Val.toScalar dxr), ("DM_Plus", sc plus), ("DM_Neg", sc minus)])
+
+/-- third part of the step: read the helpers back; if they have readings, derive the directional
+indices and DX and go on -/
+def adxVal2 (H : List (Candle F)) (c : Candle F) (positive negative : Num F) (a b : Val F) : PyM (AdxW F) :=
+  if (readingByCandle (adxSt name (sdict [("pos", sc positive), ("neg", sc negative)]) a b c)
+        (name ++ "_atr")).isNone ||
+      (readingByCandle (adxSt name (sdict [("pos", sc positive), ("neg", sc negative)]) a b c)
+        (name ++ "_pos")).isNone then
+    .ok (some (sdict [("pos", sc positive), ("neg", sc negative)], a, b, none), adxNone3)
+  else
+    adxMid
+      (readingByCandle (adxSt name (sdict [("pos", sc positive), ("neg", sc negative)]) a b c) (name ++ "_atr"))
+      (readingByCandle (adxSt name (sdict [("pos", sc positive), ("neg", sc negative)]) a b c) (name ++ "_pos"))
+      (readingByCandle (adxSt name (sdict [("pos", sc positive), ("neg", sc negative)]) a b c)
+        (name ++ "_neg")).asNum
+      (fun plus minus dx => adxVal3 name signal H c positive negative a b plus minus dx)
+
+/-- second part: the directional movements, the two-entry dict and the two smoothing RMAs -/
+def adxVal1 (H : List (Candle F)) (c : Candle F) (up down : Num F) : PyM (AdxW F) := do
+  let positive : Num F := if up.gt down && up.gt (.int 0) then up else .int 0
+  let negative : Num F := if down.gt up && down.gt (.int 0) then down else .int 0
+  let ab ← adxSetV name p H (sdict [("pos", sc positive), ("neg", sc negative)]) c
+  adxVal2 name signal H c positive negative ab.1 ab.2
+
+/-- what the node computes for the candle `c` after the history `H` -/
+def adxVal (H : List (Candle F)) (c : Candle F) : PyM (AdxW F) :=
+  if !((H.length : Int) > 0) then .ok (none, adxNone3) else do
+    let hi ← (readingByCandle c "high").asNum
+    let hp ← (Ctx.lastReading "high" H).asNum
+    let lp ← (Ctx.lastReading "low" H).asNum
+    let lo ← (readingByCandle c "low").asNum
+    adxVal1 name p signal H c (hi.sub hp) (lp.sub lo)
+
+/-- what the node's step stores besides its own reading -/
+def adxStore : Option (Val F × Val F × Val F × Option (Val F)) → Candle F → Candle F
+  | none, c => c
+  | some (d, a, b, ox), c => setD (name ++ "_dx") ox (adxSt name d a b c)
+
+/-- the finished candle -/
+def adxApp (z : AdxW F) (c : Candle F) : Candle F :=
+  setKey false name (z.2.roundBy round) (adxStore name z.1 c)
+
+/-- storing again with the same smoothed values only replaces the dict -/
+theorem adxSt_again (hn : AdxNames name) (d d' a b : Val F) (c : Candle F) :
+    adxSt name d' a b (adxSt name d a b c) = adxSt name d' a b c := by
+  unfold adxSt
+  have h1 : dlookup (name ++ "_data") (setKey true (name ++ "_pos") a (setKey true (name ++ "_data") d c)).subs
+      ≠ none := by
+    simp [dlookup_dset_ne _ _ _ _ hn.DP.symm, dlookup_dset_self]
+  have h2 : dlookup (name ++ "_data") (setKey true (name ++ "_data") d c).subs ≠ none := by
+    simp [dlookup_dset_self]
+  rw [setKey_comm _ _ d' b _ hn.DG h1, setKey_comm _ _ d' a _ hn.DP h2, setKey_setKey]
+  have h3 : dlookup (name ++ "_pos")
+      (setKey true (name ++ "_neg") b (setKey true (name ++ "_pos") a (setKey true (name ++ "_data") d' c))).subs
+      = some a := by
+    simp [dlookup_dset_ne _ _ _ _ hn.PG.symm, dlookup_dset_self]
+  rw [setKey_sub_absorb _ a _ h3]
+  exact setKey_setKey _ _ _ _ _
+
+/-- the two smoothing RMAs only see the fields of the dict on the current candle, their input
+columns over the history and their last readings -/
+theorem adxSetV_congr (hn : AdxNames name) (H H' : List (Candle F)) (d d' : Val F) (c c' : Candle F)
+    (hcP : col (name ++ "_data.pos") H = col (name ++ "_data.pos") H')
+    (hcG : col (name ++ "_data.neg") H = col (name ++ "_data.neg") H')
+    (hlP : Ctx.lastReading (name ++ "_pos") H = Ctx.lastReading (name ++ "_pos") H')
+    (hlG : Ctx.lastReading (name ++ "_neg") H = Ctx.lastReading (name ++ "_neg") H')
+    (h1 : readingByCandle (setKey true (name ++ "_data") d c) (name ++ "_data.pos")
+      = readingByCandle (setKey true (name ++ "_data") d' c') (name ++ "_data.pos"))
+    (h2 : readingByCandle (setKey true (name ++ "_data") d c) (name ++ "_data.neg")
+      = readingByCandle (setKey true (name ++ "_data") d' c') (name ++ "_data.neg")) :
+    adxSetV name p H d c = adxSetV name p H' d' c' := by
+  unfold adxSetV
+  rw [rma_cur H H' (setKey true (name ++ "_data") d c) (setKey true (name ++ "_data") d' c')
+    (name ++ "_pos") p (name ++ "_data.pos") hcP h1 hlP]
+  cases Calc.rma { cs := H' ++ [setKey true (name ++ "_data") d' c'], i := H'.length, name := name ++ "_pos" }
+      p (name ++ "_data.pos") with
+  | error e => rfl
+  | ok a =>
+    simp only [bind_ok']
+    rw [rma_cur H H' (setKey true (name ++ "_pos") (a.roundBy defaultRound) (setKey true (name ++ "_data") d c))
+      (setKey true (name ++ "_pos") (a.roundBy defaultRound) (setKey true (name ++ "_data") d' c'))
+      (name ++ "_neg") p (name ++ "_data.neg") hcG
+      (by rw [indep_dotted _ _ _ _ hn.dNeg hn.DP.symm, indep_dotted _ _ _ _ hn.dNeg hn.DP.symm]; exact h2) hlG]
+
+/-- storing a dict with the same `pos` / `neg` fields again gives the same smoothed values -/
+theorem adxSetV_again (hn : AdxNames name) (H : List (Candle F)) (c : Candle F) (positive negative dx : Num F)
+    (a b : Val F) :
+    adxSetV name p H (sdict [("pos", sc positive), ("neg", sc negative), ("dx", sc dx)])
+        (adxSt name (sdict [("pos", sc positive), ("neg", sc negative)]) a b c)
+      = adxSetV name p H (sdict [("pos", sc positive), ("neg", sc negative)]) c := by
+  apply adxSetV_congr name p hn H H _ _ _ _ rfl rfl rfl rfl
+  · rw [rbc_field_set _ _ _ hn.dPos, rbc_field_set _ _ _ hn.dPos]
+    show ((dlookup (name ++ "_data") c.inds).getD _).nested "pos" = _
+    cases dlookup (name ++ "_data") c.inds <;> rfl
+  · rw [rbc_field_set _ _ _ hn.dNeg, rbc_field_set _ _ _ hn.dNeg]
+    show ((dlookup (name ++ "_data") c.inds).getD _).nested "neg" = _
+    cases dlookup (name ++ "_data") c.inds <;> rfl
+
+/-- the last stage on `H ++ c₃ :: rest`, followed by the store of the own reading -/
+theorem adxK3_cur (hn : AdxNames name) (hp : 1 ≤ p) (hs : 1 ≤ signal) (H : List (Candle F)) (c : Candle F)
+    (rest cs0 : List (Candle F)) (positive negative plus minus dx : Num F) (a b : Val F)
+    (hab : adxSetV name p H (sdict [("pos", sc positive), ("neg", sc negative)]) c = .ok (a, b))
+    (post : Val F × List (Candle F) → PyM (List (Candle F)))
+    (hpost : ∀ v cs', post (v, cs') = setReading false name cs' H.length (v.roundBy round)) :
+    (adxK3 (adxOps name p signal H.length) { cs := cs0, i := H.length, name := name } positive negative
+        plus minus dx (H ++ adxSt name (sdict [("pos", sc positive), ("neg", sc negative)]) a b c :: rest) >>= post)
+      = (adxVal3 name signal H c positive negative a b plus minus dx >>= fun z =>
+          pure (H ++ adxApp name round z c :: rest)) := by
+  unfold adxK3 adxVal3
+  rw [setManaged_cur name p signal hp, adxSetV_again name p hn, hab]
+  simp only [bind_ok', pure_bind, adxSt_again name hn, calcManaged_cur name p signal hs]
+  cases adxDxV name signal H
+      (adxSt name (sdict [("pos", sc positive), ("neg", sc negative), ("dx", sc dx)]) a b c) with
+  | error e => rfl
+  | ok x =>
+    simp only [bind_ok', pure_bind, Ctx.reading_cur]
+    cases Val.toScalar (readingByCandle (setKey true (name ++ "_dx") x
+        (adxSt name (sdict [("pos", sc positive), ("neg", sc negative), ("dx", sc dx)]) a b c)) (name ++ "_dx")) with
+    | error e => rfl
+    | ok s =>
+      simp only [bind_ok', pure_bind, hpost, setReading_eq, updateAt_append_cons]
+      rfl
+
+/-- the second stage on `H ++ c₃ :: rest`, followed by the store of the own reading -/
+theorem adxK2_cur (hn : AdxNames name) (hp : 1 ≤ p) (hs : 1 ≤ signal) (H : List (Candle F)) (c : Candle F)
+    (rest cs0 : List (Candle F)) (positive negative : Num F) (a b : Val F)
+    (hab : adxSetV name p H (sdict [("pos", sc positive), ("neg", sc negative)]) c = .ok (a, b))
+    (post : Val F × List (Candle F) → PyM (List (Candle F)))
+    (hpost : ∀ v cs', post (v, cs') = setReading false name cs' H.length (v.roundBy round)) :
+    (adxK2 (adxOps name p signal H.length) { cs := cs0, i := H.length, name := name } positive negative
+        (H ++ adxSt name (sdict [("pos", sc positive), ("neg", sc negative)]) a b c :: rest) >>= post)
+      = (adxVal2 name signal H c positive negative a b >>= fun z =>
+          pure (H ++ adxApp name round z c :: rest)) := by
+  unfold adxK2 adxVal2
+  simp only [Ctx.reading_cur, Ctx.num_cur, bind_ok']
+  by_cases hnone : ((readingByCandle (adxSt name (sdict [("pos", sc positive), ("neg", sc negative)]) a b c)
+        (name ++ "_atr")).isNone ||
+      (readingByCandle (adxSt name (sdict [("pos", sc positive), ("neg", sc negative)]) a b c)
+        (name ++ "_pos")).isNone) = true
+  · simp only [hnone, if_true, bind_ok', pure_bind, hpost, setReading_eq, updateAt_append_cons]
+    rfl
+  · simp only [hnone, Bool.false_eq_true, if_false]
+    rw [adxMid_bind, adxMid_bind]
+    congr 1
+    funext plus minus dx
+    exact adxK3_cur name round p signal hn hp hs H c rest cs0 positive negative plus minus dx a b hab post hpost
+
+/-- the first stage on `H ++ c :: rest`, followed by the store of the own reading -/
+theorem adxK1_cur (hn : AdxNames name) (hp : 1 ≤ p) (hs : 1 ≤ signal) (H : List (Candle F)) (c : Candle F)
+    (rest : List (Candle F)) (up down : Num F)
+    (post : Val F × List (Candle F) → PyM (List (Candle F)))
+    (hpost : ∀ v cs', post (v, cs') = setReading false name cs' H.length (v.roundBy round)) :
+    (adxK1 (adxOps name p signal H.length) { cs := H ++ c :: rest, i := H.length, name := name } up down >>= post)
+      = (adxVal1 name p signal H c up down >>= fun z => pure (H ++ adxApp name round z c :: rest)) := by
+  unfold adxK1 adxVal1
+  simp only [setManaged_cur name p signal hp]
+  cases hab : adxSetV name p H (sdict [("pos", sc (if (up.gt down && up.gt (.int 0)) = true then up else .int 0)),
+      ("neg", sc (if (down.gt up && down.gt (.int 0)) = true then down else .int 0))]) c with
+  | error e => rfl
+  | ok ab =>
+    obtain ⟨a, b⟩ := ab
+    simp only [bind_ok', pure_bind]
+    exact adxK2_cur name round p signal hn hp hs H c rest _ _ _ a b hab post hpost
+
+end adxNode
+end Hex
